@@ -1088,3 +1088,22 @@ def install():
         if hasattr(m, "time"):
             m.time = SIMTIME
     _installed = True
+
+
+class GhostShot:
+    """a ghost transmission scheduled in the event heap (deep-copyable):
+    world.at(t, GhostShot(ghost, addr, payload, noack), "fire")"""
+
+    def __init__(self, ghost, addr, payload, noack=False):
+        self.ghost = ghost
+        self.addr = bytes(addr)
+        self.payload = bytes(payload)
+        self.noack = noack
+        self.name = "shot"
+
+    def fire(self):
+        g = self.ghost
+        if g.in_txn or g.state in ("tx", "tx_settle", "ack_wait"):
+            g.w.at(g.w.now + 500 * US, self, "fire")  # ghost still busy: try again shortly
+            return
+        ghost_send(g, self.addr, self.payload, self.noack)
